@@ -120,6 +120,9 @@ class Explorer:
         self.leftover = []
         self.witnesses = []
         self.max_witnesses = 1
+        self.cross = []
+        self.cross_seen = set()
+        self.cross_budget = 0
         self.samples = []
         self.params = {}
         self.ufs = {}
@@ -189,6 +192,7 @@ class Explorer:
             if r == z3.unsat:
                 st.asserts_proved += 1
                 self.note_sample(aid, 'unsat', c)
+                self.cross_check(aid, c)
                 it.add(c)
                 return None
             if r == z3.sat:
@@ -367,6 +371,32 @@ class Explorer:
             return True
         P['vfSymbolic'] = vfIsSym
 
+    def cross_check(self, aid, c):
+        """re-decide a discharged query (path condition and negated assertion) with the two other installed solvers"""
+        if self.cross_budget <= 0 or aid in self.cross_seen:
+            return
+        self.cross_seen.add(aid)
+        self.cross_budget -= 1
+        import tempfile
+        s2 = z3.Solver()
+        for pc in self.it.path.pc: s2.add(pc)
+        s2.add(z3.Not(c))
+        txt = s2.to_smt2()
+        res = {}
+        with tempfile.NamedTemporaryFile('w', suffix='.smt2', delete=False) as f:
+            f.write(txt); fn = f.name
+        try:
+            for name, cmd in (('z3-4.8.12', ['/usr/bin/z3', '-T:30', fn]), ('cvc5-1.0', ['cvc5', '--tlimit=30000', fn])):
+                try:
+                    out = subprocess.run(cmd, capture_output=True, text=True, timeout=60).stdout
+                    first = (out.strip().splitlines() or ['?'])[0]
+                    res[name] = 'error' if '(error' in out else first
+                except Exception as e:
+                    res[name] = 'failed-to-run'
+        finally:
+            os.remove(fn)
+        self.cross.append({'assert': aid, 'harness': self.harness, 'z3py': 'unsat', **res})
+
     def note_sample(self, aid, how, c=None):
         if len(self.samples) < 12 and not any(s['assert'] == aid for s in self.samples):
             s = {'assert': aid, 'harness': self.harness, 'result': how, 'path_decisions': list(self.it.path.taken)[:40]}
@@ -480,7 +510,7 @@ class Explorer:
             'asserts_proved': st.asserts_proved, 'asserts_failed': st.asserts_failed,
             'unsupported': st.unsupported, 'unwind': st.unwind, 'reach': st.reach,
             'violations': [v.to_json() for v in self.violations], 'inconclusive': self.inconclusive[:20],
-            'leftover': self.leftover, 'witnesses': self.witnesses, 'functions': sorted(st.funcs), 'samples': self.samples, 'assumed_away': st.assumed_away, 'cuts': st.cuts,
+            'leftover': self.leftover, 'witnesses': self.witnesses, 'cross': self.cross, 'functions': sorted(st.funcs), 'samples': self.samples, 'assumed_away': st.assumed_away, 'cuts': st.cuts,
         }
 
 
